@@ -8,7 +8,11 @@ import edges (``import m``, ``from m import val``, ``from m import *``, ``from .
 when executed, announces ``('load', uid, generation, instance, pyscript.get_global_ctx())``, owns a
 counter, an ``@event_trigger('probe')`` function that reports (uid, generation, instance, counter)
 and bumps the counter, and optionally starts a long task at load time (start marker, task.sleep(T),
-end marker).  Ops (<= 12): modify (new generation, possibly other imports, new mtime), touch,
+end marker).  The main file of an app may also report the pyscript.app_config it was given and then write
+to it (setdefault / item assignment / pop / update / clear / append to a nested list or dict), at load
+time or later from its trigger function.  Ops (<= 12): modify (new generation, possibly other imports,
+new mtime), touch - the new modification time is usually newer, sometimes OLDER than every earlier one
+(touch -d, archive restore, clock stepped back) or the value the file had before (touch -r / cp -p) -,
 create, delete, '#'-rename of a file or a directory (and back), add / remove / change app
 configuration, make a script unreadable, stall, reload(None | context name | '*').  After the
 start-up and after every reload: settle, fire 'probe', settle, read the registry of contexts.
@@ -21,7 +25,12 @@ over everything that directly or indirectly imports a changed file; ``global_ctx
 one file is the changed one, other changes are ignored, the widening rules still apply) and '*'.
 The oracle is a function (contexts actually loaded before, files on disk, configuration, mode)
 -> (must / may be discarded, must / may be executed); after each reload the reference state is
-re-synchronised with what is really loaded, so every reload is judged on its own.
+re-synchronised with what is really loaded, so every reload is judged on its own.  "Modification time
+changed" is judged as written: any difference from the time the context was loaded with, in either
+direction; a time put back to that value together with unchanged content is no change.  "App
+configuration changed" refers to the yaml configuration: what an app does with its own
+pyscript.app_config object is no configuration change, and an executed app must be given the
+configuration the yaml holds now.
 """
 
 from __future__ import annotations
@@ -41,8 +50,11 @@ LEVEL = "exploration"
 RULE = (
     "seeded generation of (file tree of 2-10 files over top-level / scripts/** / apps file+package(+siblings) / "
     "modules file+package(+siblings) with acyclic absolute, from-, star- and relative import edges incl. imports "
-    "of absent modules, app configuration present/absent, optional load-time long task per file) x (<= 12 ops in "
-    "rounds of 1-3 edits [modify(+re-wire imports) / touch / create / delete / '#'-rename file or directory / "
+    "of absent modules, app configuration present/absent (flat or with nested list/dict values), optional "
+    "load-time long task per file, app main files that write to their pyscript.app_config [setdefault / assign / "
+    "pop / update / clear / nested append] at load time or from their trigger) x (<= 12 ops in "
+    "rounds of 1-3 edits [modify(+re-wire imports) / touch, each with the mtime moving forwards, backwards or back "
+    "to its previous value / create / delete / '#'-rename file or directory / "
     "app config add-remove-change / unreadable script / stall] followed by reload(None | name | '*')); start-up "
     "load and every reload are judged; distinct = scenario digest; non-trivial = some reload re-executed a "
     "non-empty strict subset of the loaded contexts while at least one other context had to stay untouched"
@@ -73,7 +85,18 @@ ASSUMPTIONS = [
     "running tasks are required to survive only in contexts that were left untouched (the property's wording)",
     "context names passed to reload are exact names of loaded contexts or of visible files (prefix forms and "
     "unknown names are not generated)",
-    "app configuration values are {} / {'k': n}; None <-> {} transitions are not generated",
+    "app configuration values are {} / {'k': n} / {'k': n, 'lst': [..]} / {'k': n, 'sub': {..}}; None <-> {} "
+    "transitions are not generated",
+    "an app writes only to its own pyscript.app_config object (dict methods, append to a nested list, item "
+    "assignment in a nested dict); that is not a change of the app's configuration (the yaml is), so it gives a "
+    "default reload no reason to touch the app; what pyscript.app_config is for an app whose configuration is "
+    "empty (undefined / None / {}) is don't-care; with reload(global_ctx=name) a re-executed app may be given its "
+    "old or its current configuration ('other changes are ignored')",
+    "modification times are compared for equality with the time the context was loaded with (the documentation "
+    "says 'changed'): a touch that moves the time backwards is a change; a time put back to the loaded value "
+    "with unchanged content is none; generated times are whole seconds and never collide by accident",
+    "steer (half of the runs): apps do not write to NESTED values of their configuration (finding on record: "
+    "pyscript.app_config is a shallow copy)",
 ]
 TIERS = {
     "quick": {"runs": 4000, "chunk": 125, "max_ops": 12},
@@ -86,7 +109,9 @@ REACH_PROBES = [
     "unreadable_skipped", "deleted_module_with_importers", "deleted_package_sibling", "import_of_absent_module",
     "sibling_imports_sibling", "touch_only", "name_reload_ignored_other_change", "task_in_flight_at_reload",
     "stall_during_reload", "content_only_change", "file_failed_to_load", "importer_failed_with_its_import",
-    "failed_file_loaded_after_repair",
+    "failed_file_loaded_after_repair", "mtime_moved_back", "mtime_moved_back_imported_module", "mtime_restored",
+    "app_saw_its_config", "config_writing_app_left_alone", "config_writing_app_left_alone_nested",
+    "app_wrote_config_at_runtime",
 ]
 SHRINK_LISTS = [["ops"], ["spec", "files"], ["spec", "files", "*", "imports"]]
 
@@ -96,7 +121,11 @@ APPS = ["qa0", "qa1", "qa2"]
 SIBS = ["qx0", "qx1"]
 TOPS = ["qt0", "qt1", "qt2"]
 SCRIPTS = ["scripts/qs0", "scripts/qd1/qs1", "scripts/qd1/qd2/qs2", "scripts/qd3/qs3"]
-CFG_VALUES = [{}, {"k": 1}, {"k": 2}, {"k": 3}]
+CFG_VALUES = [{}, {"k": 1}, {"k": 2}, {"k": 3}, {"k": 1, "lst": [1]}, {"k": 2, "sub": {"a": 1}}]
+# how an app's main file writes to its own pyscript.app_config ("fill in the defaults" and friends)
+CFGMUT_FLAT = ["setdefault", "assign", "pop", "update", "clear"]
+CFGMUT_FORMS = CFGMUT_FLAT + ["nested"]
+APP_MAIN_KINDS = ("app_file", "app_pkg_init")
 TASK_T = [0, 0, 0, 2.0, 6.0, 20.0]
 # coarse grouping of the cause of a change (signature key "change")
 CHANGE_GROUP = {"delete": "removed", "hash": "removed", "config": "config", "unreadable": "removed",
@@ -162,6 +191,14 @@ def file_src(f: dict) -> str:
     ]
     if f.get("boom"):
         lines.append(f"raise ValueError('boom {u}')")  # this file fails while loading, before it imports anything
+    cm = f.get("cfgmut")
+    if cm:
+        # an app that reports the configuration it was given and then writes to its own pyscript.app_config
+        # (at load time, or later from its trigger function)
+        lines += ["try:", f"    ac_{u} = pyscript.app_config", "except Exception:", f"    ac_{u} = None",
+                  f"sim.mark('cfgseen', {u!r}, {g}, inst_{u}, ac_{u})"]
+        if f.get("cfgmut_at", "load") == "load":
+            lines += _mut_lines(cm, u, g, "")
     for scope, name, form in f["imports"]:
         dots = "." if scope == "rel" else ""
         if form == "import":
@@ -183,6 +220,8 @@ def file_src(f: dict) -> str:
         f"    sim.mark('probe', {u!r}, {g}, inst_{u}, cnt_{u})",
         f"    cnt_{u} += 1",
     ]
+    if cm and f.get("cfgmut_at", "load") != "load":
+        lines += _mut_lines(cm, u, g, "    ")
     if f.get("task"):
         lines += [
             f"def bg_{u}():",
@@ -193,6 +232,25 @@ def file_src(f: dict) -> str:
         ]
     lines.append(f"sim.mark('loadok', {u!r}, {g}, inst_{u})")
     return "\n".join(lines) + "\n"
+
+
+def _mut_lines(form: str, u: str, g: int, ind: str) -> list:
+    """Source lines that write to the dict ``ac_<u>`` (= this app's pyscript.app_config) in one of CFGMUT_FORMS."""
+    ac = f"ac_{u}"
+    body = {
+        "setdefault": [f"{ac}.setdefault('dflt', {g})"],
+        "assign": [f"{ac}['k'] = {100 + g}"],
+        "pop": [f"{ac}.pop('k', None)"],
+        "update": [f"{ac}.update({{'extra': {g}, 'k': 0}})"],
+        "clear": [f"{ac}.clear()"],
+        "nested": [f"for nv_{u} in list({ac}.values()):",
+                   f"    if isinstance(nv_{u}, list):",
+                   f"        nv_{u}.append({g})",
+                   f"    elif isinstance(nv_{u}, dict):",
+                   f"        nv_{u}['n'] = {g}"],
+    }[form]
+    return [f"{ind}if {ac} is not None:"] + [f"{ind}    {b}" for b in body] + \
+           [f"{ind}    sim.mark('cfgmut', {u!r}, {g}, inst_{u})"]
 
 
 # ------------------------------------------------------------------ the files on disk (model + real)
@@ -206,6 +264,7 @@ class Disk:
         self.fresh: set[str] = set()         # paths that became visible since the last full reload
         self.unreadable: set[str] = set()
         self.seq = 0
+        self.bseq = 0                        # source of modification times that are older than every earlier one
         self.uids: set[str] = set()
         self.cfg_changed: set[str] = set()
         for f in files:
@@ -213,8 +272,9 @@ class Disk:
                 continue
             self.seq += 1
             self.files[f["path"]] = {"uid": f["uid"], "gen": 1, "imports": [list(i) for i in f["imports"]],
-                                     "task": f.get("task", 0), "mtime": self.seq,
-                                     "boom": bool(f.get("boom")), "strict": bool(f.get("strict"))}
+                                     "task": f.get("task", 0), "mtime": self.seq, "prev_mtime": None,
+                                     "boom": bool(f.get("boom")), "strict": bool(f.get("strict")),
+                                     "cfgmut": f.get("cfgmut") or 0, "cfgmut_at": f.get("cfgmut_at") or "load"}
             self.uids.add(f["uid"])
 
     def initial_files(self) -> dict:
@@ -230,6 +290,20 @@ class Disk:
         self.seq += 1
         return self.seq
 
+    def _move_mtime(self, f: dict, how: str | None) -> None:
+        """New modification time of a file: None = now (newer than everything); 'back' = older than every time
+        seen so far (touch -d, restore from an archive, clock stepped back); 'restore' = the value the file had
+        before its latest change of mtime (touch -r / cp -p of the saved copy), 'back' if it never had another."""
+        old = f["mtime"]
+        if how == "restore" and f.get("prev_mtime") is not None:
+            new = f["prev_mtime"]
+        elif how in ("back", "restore"):
+            self.bseq -= 1
+            new = self.bseq
+        else:
+            new = self._mtime()
+        f["mtime"], f["prev_mtime"] = new, old
+
     def apply(self, op: dict, w: World | None = None) -> bool:
         kind = op["kind"]
         if kind in ("modify", "touch"):
@@ -237,7 +311,7 @@ class Disk:
             if f is None:
                 return False
             if not (kind == "modify" and op.get("keep_mtime")):
-                f["mtime"] = self._mtime()
+                self._move_mtime(f, op.get("mt"))
             if kind == "modify":
                 f["gen"] += 1
                 if op.get("imports") is not None:
@@ -254,7 +328,9 @@ class Disk:
             if op["path"] in self.files or nf["uid"] in self.uids or classify(op["path"]) is None:
                 return False
             f = {"uid": nf["uid"], "gen": 1, "imports": [list(i) for i in nf["imports"]], "task": nf.get("task", 0),
-                 "mtime": self._mtime(), "boom": bool(nf.get("boom")), "strict": bool(nf.get("strict"))}
+                 "mtime": self._mtime(), "prev_mtime": None, "boom": bool(nf.get("boom")),
+                 "strict": bool(nf.get("strict")), "cfgmut": nf.get("cfgmut") or 0,
+                 "cfgmut_at": nf.get("cfgmut_at") or "load"}
             self.files[op["path"]] = f
             self.uids.add(nf["uid"])
             self.fresh.add(op["path"])
@@ -655,7 +731,8 @@ def gen(rng: random.Random, tier: str) -> dict:
         if steer:
             imports = [i2 for i2 in imports if not (i2[0] == "rel" and info["kind"].endswith("_sibling"))]
         files.append({"uid": f"F{i}", "path": path, "imports": imports, "task": rng.choice(TASK_T),
-                      "boom": rng.random() < 0.05, "strict": bool(imports) and rng.random() < 0.3})
+                      "boom": rng.random() < 0.05, "strict": bool(imports) and rng.random() < 0.3,
+                      **_gen_cfgmut(rng, info, steer)})
     if rng.random() < 0.2:
         # a module that fails while loading and that something imports without a guard: the importer fails with it
         imported = sorted({i[1] for f in files for i in f["imports"] if i[0] == "abs"})
@@ -716,6 +793,24 @@ def gen(rng: random.Random, tier: str) -> dict:
     return {"cfg": cfg, "spec": {"files": files, "steer": steer}, "ops": ops}
 
 
+def _gen_cfgmut(rng: random.Random, info: dict, steer: bool) -> dict:
+    """Whether (and how, and when) an app's main file writes to its own pyscript.app_config."""
+    if info["kind"] not in APP_MAIN_KINDS or rng.random() >= 0.4:
+        return {}
+    form = rng.choice(CFGMUT_FLAT if steer else CFGMUT_FORMS + ["nested"])
+    return {"cfgmut": form, "cfgmut_at": "probe" if rng.random() < 0.25 else "load"}
+
+
+def _gen_mt(rng: random.Random, p_back: float) -> dict:
+    """Direction of a change of modification time: mostly forwards, sometimes backwards / back to the old value."""
+    roll = rng.random()
+    if roll < p_back:
+        return {"mt": "back"}
+    if roll < p_back * 1.6:
+        return {"mt": "restore"}
+    return {}
+
+
 def _gen_edit(rng: random.Random, disk: Disk, next_uid: int, steer: bool) -> dict | None:
     paths = sorted(disk.files)
     visible = [p for p in paths if not classify(p)["hidden"]]
@@ -730,6 +825,8 @@ def _gen_edit(rng: random.Random, disk: Disk, next_uid: int, steer: bool) -> dic
             op["boom"] = True
         if rng.random() < 0.12:
             op["keep_mtime"] = True  # content replaced by a tool that preserves the modification time
+        else:
+            op.update(_gen_mt(rng, 0.12))  # ... or that sets it to the (older) time of the copy it installs
         if rng.random() < 0.3:
             mods_here, sibs_here = _tree_names(paths)
             info = classify(path)
@@ -739,7 +836,7 @@ def _gen_edit(rng: random.Random, disk: Disk, next_uid: int, steer: bool) -> dic
             op["imports"] = imports
         return op
     if roll < 0.40 and paths:
-        return {"kind": "touch", "path": rng.choice(visible or paths)}
+        return {"kind": "touch", "path": rng.choice(visible or paths), **_gen_mt(rng, 0.3)}
     if roll < 0.52:
         free = [p for p in ALL_PATHS if p not in disk.files]
         if not free or len(disk.files) >= 10:
@@ -759,7 +856,8 @@ def _gen_edit(rng: random.Random, disk: Disk, next_uid: int, steer: bool) -> dic
             imports = [i for i in imports if not (i[0] == "rel" and info["kind"].endswith("_sibling"))]
         return {"kind": "create", "path": path,
                 "file": {"uid": f"F{next_uid}", "imports": imports, "task": rng.choice(TASK_T),
-                         "boom": rng.random() < 0.05, "strict": bool(imports) and rng.random() < 0.3}}
+                         "boom": rng.random() < 0.05, "strict": bool(imports) and rng.random() < 0.3,
+                         **_gen_cfgmut(rng, info, steer)}}
     if roll < 0.63 and paths:
         pool = visible or paths
         if steer:
@@ -822,11 +920,15 @@ def normalize(scn: dict) -> dict | None:
 
 def simplify(scn: dict):
     for fi, f in enumerate(scn["spec"]["files"]):
-        for key in ("task", "boom", "strict"):
+        for key in ("task", "boom", "strict", "cfgmut"):
             if f.get(key):
                 cand = copy.deepcopy(scn)
                 cand["spec"]["files"][fi][key] = 0
                 yield cand
+        if f.get("cfgmut") and f.get("cfgmut_at", "load") != "load":
+            cand = copy.deepcopy(scn)
+            cand["spec"]["files"][fi]["cfgmut_at"] = "load"
+            yield cand
         for ii, imp in enumerate(f["imports"]):
             if imp[2] != "import":
                 cand = copy.deepcopy(scn)
@@ -841,11 +943,19 @@ def simplify(scn: dict):
             cand = copy.deepcopy(scn)
             cand["ops"][oi].pop("stall")
             yield cand
+        if op.get("mt"):
+            cand = copy.deepcopy(scn)
+            cand["ops"][oi].pop("mt")
+            yield cand
+            if op["mt"] == "restore":
+                cand = copy.deepcopy(scn)
+                cand["ops"][oi]["mt"] = "back"
+                yield cand
         if op["kind"] == "modify" and op.get("imports") is not None:
             cand = copy.deepcopy(scn)
             cand["ops"][oi].pop("imports")
             yield cand
-        for key in ("task", "boom", "strict"):
+        for key in ("task", "boom", "strict", "cfgmut"):
             if op["kind"] == "create" and op["file"].get(key):
                 cand = copy.deepcopy(scn)
                 cand["ops"][oi]["file"][key] = 0
@@ -866,6 +976,10 @@ def simplify(scn: dict):
         if apps[app]:
             cand = copy.deepcopy(scn)
             cand["cfg"]["apps"][app] = {}
+            yield cand
+        if any(not isinstance(v, int) for v in apps[app].values()):
+            cand = copy.deepcopy(scn)
+            cand["cfg"]["apps"][app] = {"k": 1}
             yield cand
     for key, val in (("exec_latency_ms", [0.0, 0.0]), ("timer_late_ms", 0.0), ("cost_us", 50), ("set_order_salt", 0),
                      ("legacy", False)):
@@ -934,6 +1048,7 @@ class Judge:
         self.failed_before: set[str] = set()  # contexts whose latest execution did not reach the end of the file
         self.diverged = False   # a context with an undocumented name exists: outside the documented state space
         self.named = None
+        self.mutated: dict[int, str] = {}     # instance -> how it has written to its pyscript.app_config so far
 
     def viol(self, cls: str, sig: dict, detail: str) -> None:
         self.violations.append({"class": cls, "sig": sig, "detail": detail, "t": self.w.vts()})
@@ -941,6 +1056,11 @@ class Judge:
     def take_marks(self) -> list:
         marks = self.w.marks[self.pos:]
         self.pos = len(self.w.marks)
+        for m in marks:
+            if m["args"] and m["args"][0] == "cfgmut":
+                uid, inst = m["args"][1], m["args"][3]
+                path = self.disk.path_of(uid)
+                self.mutated[inst] = (self.disk.files[path].get("cfgmut") if path else None) or "some"
         return marks
 
     # ---------------------------------------------------------------- reach probes computed from the reference
@@ -959,6 +1079,10 @@ class Judge:
                 w.probe("app_config_changed")
             if reason["op"] == "touch":
                 w.probe("touch_only")
+                if self.disk.files[exp["found"][ctx]["path"]]["mtime"] < loaded[ctx]["mtime"]:
+                    w.probe("mtime_moved_back")
+                    if any(ctx in e["imports"] for e in loaded.values()):
+                        w.probe("mtime_moved_back_imported_module")
             if reason["op"] == "modify" and ctx in loaded and ctx in exp["found"] and \
                     self.disk.files[exp["found"][ctx]["path"]]["mtime"] == loaded[ctx]["mtime"]:
                 w.probe("content_only_change")
@@ -1082,9 +1206,14 @@ class Judge:
                           f"{name} was executed {len(executed[name])} times by one {label} reload")
             if name not in may_exec and classify_ctx_known(name, found, before):
                 kind = (found.get(name) or before.get(name))["kind"]
-                self.viol("C10.reexecuted_unexpectedly", {"mode": label, "place": kind},
+                sig = {"mode": label, "place": kind}
+                how = self.mutated.get(self.cur_inst.get(root_of(name) or name))  # (of its app's main file)
+                if how:
+                    sig["wrote_app_config"] = how  # the discarded instance had written to its pyscript.app_config
+                self.viol("C10.reexecuted_unexpectedly", sig,
                           f"{label} reload re-executed {name} although nothing it depends on changed "
-                          f"(changed: {_fmt(exp['must_base'])}; optional: {_fmt(exp['opt_base'])})")
+                          f"(changed: {_fmt(exp['must_base'])}; optional: {_fmt(exp['opt_base'])}"
+                          + (f"; the app had written to its pyscript.app_config: {how}" if how else "") + ")")
         for name in sorted(executed):
             ok_real = executed[name][-1]["args"][3] in load_ok
             if name in failed_any:
@@ -1100,6 +1229,33 @@ class Judge:
                 raise HarnessError(f"C10 reference: {name} should fail while loading but ran to its end")
             if ok_real and name in self.failed_before:
                 w.probe("failed_file_loaded_after_repair")
+        # ---- (b') the configuration an executed app was given is the one the yaml configuration holds now
+        seen_by = {m["args"][3]: m["args"][4] for m in marks if m["args"] and m["args"][0] == "cfgseen"}
+        for name in sorted(executed):
+            m = executed[name][-1]
+            uid, gen, inst = m["args"][1:4]
+            d = found.get(name)
+            if inst not in seen_by or d is None or d["kind"] not in APP_MAIN_KINDS:
+                continue
+            cur = disk.files[d["path"]]
+            if (cur["uid"], cur["gen"]) != (uid, gen):
+                continue  # reported above
+            seen = seen_by[inst]
+            allowed = [w.norm(d["cfg"])]
+            if label == "name" and name in before and before[name]["cfg"] is not None:
+                allowed.append(w.norm(before[name]["cfg"]))  # "other changes are ignored"
+            if seen in allowed or (not d["cfg"] and seen is None):
+                w.probe("app_saw_its_config")
+                continue
+            self.viol("C10.app_config_seen", {"mode": label, "place": d["kind"]},
+                      f"{label} reload executed {name} ({d['path']}) with pyscript.app_config = {seen!r}; the "
+                      f"configuration of that app is {d['cfg']!r}")
+        for ctx in sorted(before):
+            how = self.mutated.get(self.cur_inst.get(ctx))
+            if how and label == "default" and ctx not in may_changed:
+                w.probe("config_writing_app_left_alone")
+                if how == "nested":
+                    w.probe("config_writing_app_left_alone_nested")
         for name in sorted(must_exec):
             if name not in executed:
                 sig = reason_sig(name, must_changed)
@@ -1203,7 +1359,10 @@ class Judge:
         if self.diverged:
             self.take_marks()
             return
-        marks = [m for m in self.take_marks() if m["args"] and m["args"][0] == "probe"]
+        taken = self.take_marks()
+        if any(m["args"] and m["args"][0] == "cfgmut" for m in taken):
+            self.w.probe("app_wrote_config_at_runtime")
+        marks = [m for m in taken if m["args"] and m["args"][0] == "probe"]
         by_inst: dict[int, list] = {}
         for m in marks:
             by_inst.setdefault(m["args"][3], []).append(m)
@@ -1361,8 +1520,12 @@ def run(scn: dict) -> dict:
                 judge.reload_times.append({"t0": t0, "n_exec": judge.n_exec - n_before})
                 await probe(label)
             else:
+                restores = (op.get("mt") == "restore" and kind in ("touch", "modify") and not op.get("keep_mtime")
+                            and (disk.files.get(op["path"]) or {}).get("prev_mtime") is not None)
                 if not disk.apply(op, w):
                     w.probe("op_skipped")
+                elif restores:
+                    w.probe("mtime_restored")
                 elif kind == "hash" and not op["target"].endswith(".py"):
                     w.probe("hash_dir_rename")
         await w.settle(max_task + 1.0)
